@@ -29,6 +29,7 @@ int (* simk_connect_hook)(int, const struct sockaddr *, socklen_t) = NULL;
 int simk_socket_fail_next = 0;
 
 static struct vh_rng rng;
+static int hifd = 0;	/* 1 + highest descriptor ever simulated */
 
 /* Scheduled raw-flag flips. */
 struct flip {
@@ -100,6 +101,8 @@ simk_newfd(void)
 	vh_free(simk_fds[fd].out_buf);
 	memset(&simk_fds[fd], 0, sizeof(simk_fds[fd]));
 	simk_fds[fd].inuse = 1;
+	if (fd >= hifd)
+		hifd = fd + 1;
 	simk_fds[fd].out_fail_at = SIMK_NEVER;
 	simk_fds[fd].conn_done_us = SIMK_NEVER;
 	return (fd);
@@ -226,7 +229,7 @@ simk_apply_due(void)
 		nflips--;
 	}
 
-	for (i = 0; i < SIMK_MAXFD; i++) {
+	for (i = 0; i < hifd; i++) {
 		f = &simk_fds[i];
 		if (!f->inuse || f->closed)
 			continue;
@@ -271,7 +274,7 @@ simk_next_event(void)
 	for (i = 0; i < nflips; i++)
 		if (flips[i].at < t)
 			t = flips[i].at;
-	for (i = 0; i < SIMK_MAXFD; i++) {
+	for (i = 0; i < hifd; i++) {
 		f = &simk_fds[i];
 		if (!f->inuse || f->closed)
 			continue;
@@ -283,9 +286,13 @@ simk_next_event(void)
 			t = f->win_next_us;
 		if (f->conn_state == 1 && f->conn_done_us < t)
 			t = f->conn_done_us;
-		if (f->listening && f->acc_i < f->acc_n && f->acc_next_us < t)
+		if (f->listening && f->acc_i < f->acc_n &&
+		    f->acc_next_us > simk_now_us && f->acc_next_us < t)
 			t = f->acc_next_us;
 	}
+	/* Only the future counts: what is due now has been applied. */
+	if (t <= simk_now_us)
+		t = SIMK_NEVER;
 	return (t);
 }
 
@@ -474,23 +481,29 @@ __wrap_recv(int fd, void * buf, size_t len, int flags)
 	}
 	simk_apply_due();
 	if (f->p_eintr && vh_below(&rng, 256) < f->p_eintr) {
+		f->n_in_soft++;
 		errno = EINTR;
 		return (-1);
 	}
 	avail = f->in_avail - f->in_pos;
 	if (avail == 0) {
 		if (f->in_avail == f->in_total) {
-			if (f->in_end == SIMK_END_EOF)
+			if (f->in_end == SIMK_END_EOF) {
+				f->n_eof++;
 				return (0);
+			}
 			if (f->in_end == SIMK_END_ERROR) {
+				f->n_inerr++;
 				errno = f->in_errno;
 				return (-1);
 			}
 		}
+		f->n_in_soft++;
 		errno = EAGAIN;
 		return (-1);
 	}
 	if (f->p_spurious && vh_below(&rng, 256) < f->p_spurious) {
+		f->n_in_soft++;
 		errno = EWOULDBLOCK;
 		return (-1);
 	}
@@ -510,6 +523,8 @@ __wrap_recv(int fd, void * buf, size_t len, int flags)
 			((uint8_t *)buf)[i] = vh_streambyte(f->in_key,
 			    f->in_pos + i);
 	f->in_pos += n;
+	if (n < len)
+		f->n_in_partial++;
 	return ((ssize_t)n);
 }
 
@@ -538,18 +553,22 @@ __wrap_send(int fd, const void * buf, size_t len, int flags)
 		return ((ssize_t)len);
 	simk_apply_due();
 	if (f->out_total >= f->out_fail_at) {
+		f->n_outerr++;
 		errno = f->out_errno;
 		return (-1);
 	}
 	if (f->p_out_eintr && vh_below(&rng, 256) < f->p_out_eintr) {
+		f->n_out_soft++;
 		errno = EINTR;
 		return (-1);
 	}
 	if (f->win_delay_us && f->out_window == 0) {
+		f->n_out_soft++;
 		errno = EAGAIN;
 		return (-1);
 	}
 	if (f->p_out_spurious && vh_below(&rng, 256) < f->p_out_spurious) {
+		f->n_out_soft++;
 		errno = EAGAIN;
 		return (-1);
 	}
@@ -579,6 +598,8 @@ __wrap_send(int fd, const void * buf, size_t len, int flags)
 		memcpy(f->out_buf + f->out_total, buf, n);
 	}
 	f->out_total += n;
+	if (n < len)
+		f->n_out_partial++;
 	if (f->win_delay_us) {
 		f->out_window -= n;
 		if (f->out_window == 0)
@@ -664,6 +685,32 @@ __wrap_accept(int fd, struct sockaddr * sa, socklen_t * len)
 		return (-1);
 	}
 	return (simk_newfd());
+}
+
+int __wrap_bind(int, const struct sockaddr *, socklen_t);
+int
+__wrap_bind(int fd, const struct sockaddr * sa, socklen_t len)
+{
+
+	(void)sa; (void)len;
+	if (simk_get(fd) == NULL) {
+		errno = EBADF;
+		return (-1);
+	}
+	return (0);
+}
+
+int __wrap_setsockopt(int, int, int, const void *, socklen_t);
+int
+__wrap_setsockopt(int fd, int level, int name, const void * val, socklen_t len)
+{
+
+	(void)level; (void)name; (void)val; (void)len;
+	if (simk_get(fd) == NULL) {
+		errno = EBADF;
+		return (-1);
+	}
+	return (0);
 }
 
 int __wrap_close(int);
